@@ -186,7 +186,7 @@ def check_case(case, ctx):
 
 
 def reach(counters, tier, info):
-    k = 1 if tier == "quick" else 8
+    k = 0.5 if tier == "quick" else 8
     out = []
     for name, key, need in [("cases where the exact sub-solver ran on a component of size >= 3", "exact_component_runs", 100 * k),
                             ("cases where the auxiliary algorithm ran", "aux_component_runs", 100 * k),
